@@ -52,6 +52,7 @@ fn validate_path(path: &[u8]) -> (r: Result<(), &'static str>)
 /// std::fs::File / Metadata as far as dir.rs looks at them: an opened file is identified by the openat call that produced it.
 pub uninterp spec fn sp_meta_ok(id: int) -> bool;      // fstat on that file succeeds
 pub uninterp spec fn sp_is_dir(id: int) -> bool;       // ... and says it is a directory
+pub uninterp spec fn sp_is_file(id: int) -> bool;      // ... or a regular file (a device, socket or FIFO is neither)
 pub struct FileStub { pub id: Ghost<int> }
 pub struct MetaStub { pub of: Ghost<int> }
 impl FileStub {
@@ -61,6 +62,9 @@ impl FileStub {
 impl MetaStub {
     #[verifier::external_body]
     pub fn is_dir(&self) -> (r: bool) ensures r == sp_is_dir(self.of@) { unimplemented!() }
+    /// (not used by the pinned code)
+    #[verifier::external_body]
+    pub fn is_file(&self) -> (r: bool) ensures r == sp_is_file(self.of@), r ==> !sp_is_dir(self.of@) { unimplemented!() }
 }
 /// std::io::{Error, ErrorKind} as far as dir.rs uses them.
 #[derive(Clone, Copy)]
@@ -89,6 +93,15 @@ pub fn cstr_from_bytes_with_nul_unchecked<'a>(s: &'a [u8]) -> (r: &'a CStr)
     requires s@.len() >= 1, s@[s@.len() - 1] == 0u8, forall|i: int| 0 <= i < s@.len() - 1 ==> s@[i] != 0u8,
     ensures r.b@ == s@,
 { unimplemented!() }
+pub struct FromBytesWithNulError;
+impl CStr {
+    /// `CStr::from_bytes_with_nul` (the checked conversion; not used by the pinned code): Ok iff exactly one NUL, at the end.
+    #[verifier::external_body]
+    pub fn from_bytes_with_nul<'a>(s: &'a [u8]) -> (r: Result<&'a CStr, FromBytesWithNulError>)
+        ensures r.is_ok() == (s@.len() >= 1 && s@[s@.len() - 1] == 0u8 && forall|i: int| 0 <= i < s@.len() - 1 ==> s@[i] != 0u8),
+                r matches Ok(c) ==> c.b@ == s@,
+    { unimplemented!() }
+}
 /// One openat(2) call as the OS answered it.
 pub struct OpenEv { pub dirfd: i32, pub path: Seq<u8>, pub res: Option<int>, pub not_found: bool }
 /// `should_gzip` (src/lib.rs; proved in unit `gz`): a function of the request headers.
